@@ -83,6 +83,67 @@ def field_table(f):
                 tab[k] = fld['ty']
     for k in bad:
         del tab[k]
+    # accessor summaries: a `len(&self)` of a crate type that returns the length of the very field its slice views
+    # (`as_ref` / `deref` / `as_slice` / `as_bytes`) return - then `x.len()` IS the length of `x.as_ref()` ('#len-of-view:<fn>')
+    def ret_field(r, want_len):
+        """Field path of self whose length (want_len) / whose view (not want_len) the one-call body returns, or None."""
+        if r.get('nargs') != 1 or r.get('kind') == 'Closure':
+            return None
+        blocks = [blk for blk in r['blocks'] if not blk['c']]
+        calls = [blk['t'] for blk in blocks if blk['t']['k'] == 'call']
+        if any(blk['t']['k'] not in ('call', 'return', 'goto') for blk in blocks) or len(calls) > 1:
+            return None
+        defs = {}
+        for blk in blocks:
+            for st in blk['s']:
+                if st['d']['pr'] or st['d']['l'] in defs:
+                    return None
+                defs[st['d']['l']] = st['r']
+        def root(o):
+            l, pr = o['l'], [e for e in o['pr'] if e != '*']
+            for _ in range(6):
+                if l == 1:
+                    return tuple(pr)
+                rr = defs.get(l)
+                if rr is None:
+                    if calls and not calls[0]['d']['pr'] and calls[0]['d']['l'] == l and not want_len and ADAPTERS.search(calls[0]['f'].get('fn', '') or '') and calls[0]['args'] and 'l' in calls[0]['args'][0]:
+                        q = calls[0]['args'][0]
+                        l, pr = q['l'], [e for e in q['pr'] if e != '*'] + pr
+                        continue
+                    return None
+                if rr['k'] in ('ref', 'copyderef'):
+                    q = rr['p']
+                elif rr['k'] == 'use' and 'l' in rr['o'][0]:
+                    q = rr['o'][0]
+                else:
+                    return None
+                l, pr = q['l'], [e for e in q['pr'] if e != '*'] + pr
+            return None
+        if want_len:
+            if len(calls) != 1 or calls[0]['d']['pr'] or calls[0]['d']['l'] != 0 or not SEQ_LEN.search(calls[0]['f'].get('fn', '') or '') or not calls[0]['args'] or 'l' not in calls[0]['args'][0]:
+                return None
+            return root(calls[0]['args'][0])
+        if 0 in defs:
+            rr = defs[0]
+            if rr['k'] in ('ref', 'copyderef'):
+                return root(rr['p'])
+            if rr['k'] == 'use' and 'l' in rr['o'][0]:
+                return root(rr['o'][0])
+            return None
+        if calls and not calls[0]['d']['pr'] and calls[0]['d']['l'] == 0:
+            return root(dict(l=0, pr=[]))
+        return None
+    views = {}
+    for path, r in f.bodies.items():
+        if r.get('name') in ('as_ref', 'deref', 'as_slice', 'as_bytes', 'borrow') and r.get('impl_self'):
+            fp = ret_field(r, False)
+            views.setdefault(r['impl_self'], set()).add(fp)
+    for path, r in f.bodies.items():
+        if r.get('name') == 'len' and r.get('impl_self') and not r.get('impl_trait'):
+            fp = ret_field(r, True)
+            vs = views.get(r['impl_self'])
+            if fp and vs and vs == {fp}:
+                tab['#len-of-view:' + path] = 'usize'
     return tab
 
 
@@ -1072,6 +1133,9 @@ class Analysis:
                 # that was not mutated in between return the same value (axiom; the term dies when the object may change)
                 root, pr = self.canon(args[0])
                 post.append(('eq', dt, (('M:' + fn, root, pr), 0)))
+                if self.field_ty is not None and self.field_ty('#len-of-view:' + (f.get('res') or fn)):
+                    # accessor summary: this `len()` returns the length of what the type's slice views return
+                    post.append(('eq', dt, self.len_term(args[0])))
         # -- results that carry a length
         if dl is not None and bits is None:
             dlen = ('len', dl, ())
